@@ -31,6 +31,7 @@ ASSUMPTIONS = [
     "for an unloaded many-to-one without active_history either the 'old value not fetched' form (deleted=()) or the exact form is accepted (the old value may be found in the identity map without SQL)",
     "collections are compared by identity as sets for unchanged/deleted and in current order for added; programs never put the same child twice in a list",
     "autoflush off; Session.expire() of the parent is only issued when it has no pending changes (its children would keep theirs)",
+    "after a rollback the harness resets the foreign key attribute of children that were INSERTed in the rolled-back transaction (transient objects keep their attribute values)",
     "confirmed findings (del of a column attribute on a persistent object breaks flush / a later read) are excluded by construction and pinned as replays",
 ]
 
@@ -711,7 +712,13 @@ def check_coll(case, ctx):
                 if touched or del_pending:
                     nontrivial = True
                     classes.add("rollback:discards-pending-change")
+                evicted = sorted(in_sess - c_in_db)
                 sess.rollback()
+                for i_ in evicted:
+                    # objects INSERTed in the rolled-back transaction are transient again but keep their attribute values, including the
+                    # foreign key the flush had synchronised; the harness (user code re-using them) clears it so that a later INSERT
+                    # of the re-added child says only what the parent's collection history says
+                    setattr(children[i_], fk, None)
                 in_db, in_sess, db_members = set(c_in_db), set(c_in_db), set(c_db_members)
                 committed, cur, touched, del_pending, p_persistent = UNKNOWN, None, False, False, True
                 moved.clear()
